@@ -69,7 +69,7 @@ def vkey(f, clause):
 def strip_case(c):
     """what TLC needs of a session record"""
     def ev(e):
-        return {"ev": e["ev"], "f": e["f"], "args": e["args"], "cfg": e["cfg"], "fam": e.get("fam", "std"), "raised": e["raised"],
+        return {"ev": e["ev"], "f": e["f"], "args": e["args"], "cfg": e["cfg"], "fam": e.get("fam", "std"), "argchg": bool(e.get("argchg", False)), "raised": e["raised"],
                 "new": e.get("new", []), "objs": e["objs"], "res": e["res"], "store": e.get("store", [])}
     return {"init": c["init"], "events": [ev(e) for e in c["events"]]}
 
